@@ -116,11 +116,12 @@ CHECKS['C08'] = {
 CHECKS['C14'] = {
     'jobs': {'quick': [J('c14_resolver.cpp', ['K=3', 'PROTO=0', 'SMALL'], wall=280, markers=(1, 2)), J('c14_resolver.cpp', ['K=2', 'PROTO=1'], wall=120, markers=(1, 2)),
                        J('c14_resolver.cpp', ['K=2', 'PROTO=0', 'EARLY', 'SMALL'], wall=200, markers=(1, 2))],
-             'thorough': [J('c14_resolver.cpp', ['K=4', 'PROTO=0'], wall=700, markers=(1, 2)), J('c14_resolver.cpp', ['K=3', 'PROTO=1'], wall=700, markers=(1, 2))]},
+             'thorough': [J('c14_resolver.cpp', ['K=4', 'PROTO=0'], wall=700, markers=(1, 2)), J('c14_resolver.cpp', ['K=3', 'PROTO=1'], wall=700, markers=(1, 2)),
+                          J('c14_resolver.cpp', ['K=3', 'PROTO=0', 'EARLY', 'SMALL'], wall=700, markers=(1, 2))]},
     'bounds': {'quick': 'K=3 operations from {resolve host name (3 names; latency 0/1us or symbolic 1ns..1s; 1-2 addresses or host_not_found), resolve IPv4 literal, resolve IPv6 literal, cancel(), '
                         'cancel() from inside the next completion handler} issued at symbolic instants (gap 0 or 1ns..300ms) on a TCP resolver (K=3) and a UDP resolver (K=2); services 80/0/65535 on the first resolve; '
                         'preset EARLY: the driving timer is armed for a symbolic instant before a host-name lookup is started, then K=2 operations (so that the operations can run in the instant the lookup is due, ahead of the resolver\'s own timer completion)',
-               'thorough': 'K=4'},
+               'thorough': 'K=4 (TCP), K=3 (UDP), K=3 after the EARLY preset'},
     'outside': ['longer sequences', 'moved resolvers'],
     'assumptions': [],
 }
